@@ -19,7 +19,7 @@ MANIFEST = dict(
          'STRING s then EOF for ever (flat input and the chunked reader state of the real class, any chunking); the escaped '
          'text decomposes into raw characters and backslash+symbol units whose raw units are never a double quote or CR, and '
          'in single-line mode contains no LF/CR at all. escape_text itself is translated into a pipeline of whole-string steps '
-         '(regex substitution with the table callback, str.replace, each conditional on multiline); if the steps of a mode are '
+         '(regex substitution with the table callback - all matches or the first n -, str.replace, each conditional on multiline); if the steps of a mode are '
          'exactly one substitution (obligation escape_text_is_one_table_substitution_*) the pipeline IS the per-character model '
          '(c02_escape_text_is_charwise) and the inverse law holds for the function as written (c02_escape_text_tokenize_inverse); a '
          'post-processing pipeline is refuted by a computed witness. Tokenizer._handle_string is executed on abstract values for every '
